@@ -54,6 +54,10 @@ def gen_cases(tier, seed):
         for wt in (("rhf",) if q else ("rhf", "uhf")):
             cases.append({"type": "driver", "rot": rot, "do_sr": do_sr, "wt": wt, "ad_mode": "forward" if (rot ^ do_sr) or q else str(rng.choice(["forward", "reverse"])),
                           "s": int(rng.integers(1 << 30)), "group": "drv-%s-%s-%s" % (rot, do_sr, wt), "cost": 70})
+    # ... and the remaining modes: no AD (plain sampler), reverse mode, and the 2-RDM mode (propagate_phaseless_ad_1 on the ERI tensor)
+    for (mode, wt) in ((None, "uhf"), ("reverse", "uhf"), ("2rdm", "rhf")) if q else ((None, "uhf"), (None, "rhf"), ("reverse", "uhf"), ("reverse", "rhf"), ("2rdm", "rhf"), ("2rdm", "uhf")):
+        cases.append({"type": "driver", "rot": True, "do_sr": True, "wt": wt, "ad_mode": mode, "s": int(rng.integers(1 << 30)),
+                      "group": "drv-%s-%s" % (mode, wt), "cost": 70})
     for wt in (("uhf",) if q else ("rhf", "uhf")):
         cases.append({"type": "repro", "wt": wt, "entry": "plain", "s": int(rng.integers(1 << 30)), "group": "rep-%s" % wt, "cost": 40})
         cases.append({"type": "batch", "wt": wt, "entry": str(rng.choice(["plain", "ad_nosr"])), "s": int(rng.integers(1 << 30)), "group": "bat-%s" % wt, "cost": 50})
@@ -473,10 +477,23 @@ def run_driver(case):
     pd = prop.stochastic_reconfiguration_global(pd, comm)
     pd["e_estimate"] = 0.9 * pd["e_estimate"] + 0.1 * be[0]
     entry = {(True, True): "ad", (True, False): "ad_nosr", (False, True): "ad_norot", (False, False): "ad_nosr_norot"}[(case["rot"], case["do_sr"])]
+    if case["ad_mode"] is None:
+        entry = "plain"
+    elif case["ad_mode"] == "2rdm":
+        entry = "ad_1"
     obs = jnp.array(hd["h1"])
     mine = []
     for n in range(nblocks):
-        e, pd = call_entry_obs(entry, smp, S, hd, wd, pd, obs)
+        if entry == "plain":
+            e, pd = smp.propagate_phaseless(ham, hd, prop, pd, trial, wd)
+        elif entry == "ad_1":
+            ch = np.asarray(hd["chol"]).reshape(np.asarray(hd["chol"]).shape[0], -1)
+            eri = jnp.array(np.einsum("gj,gl->jl", ch, ch).reshape(norb, norb, norb, norb))
+            e, pd = smp.propagate_phaseless_ad_1(ham, hd, 1.0, eri, prop, pd, trial, wd)
+        elif case["ad_mode"] == "reverse":
+            e, pd = call_entry_obs(entry, smp, S, hd, wd, pd, 0.0 * obs, coupling=1.0)
+        else:
+            e, pd = call_entry_obs(entry, smp, S, hd, wd, pd, obs)
         e32 = float(np.array([e], dtype="float32")[0])
         w32 = float(np.array([jnp.sum(pd["weights"])], dtype="float32")[0])
         mine.append(e32)
@@ -491,10 +508,10 @@ def run_driver(case):
             "counters": {"entry_calls": nblocks + 1, "driver_selection_checks": 1}}
 
 
-def call_entry_obs(entry, smp, S, hd, wd, pd, obs):
+def call_entry_obs(entry, smp, S, hd, wd, pd, obs, coupling=0.0):
     fn = {"ad": smp.propagate_phaseless_ad, "ad_nosr": smp.propagate_phaseless_ad_nosr, "ad_norot": smp.propagate_phaseless_ad_norot,
           "ad_nosr_norot": smp.propagate_phaseless_ad_nosr_norot}[entry]
-    return fn(S["ham"], hd, 0.0, obs, S["prop"], pd, S["trial"], wd)
+    return fn(S["ham"], hd, coupling, obs, S["prop"], pd, S["trial"], wd)
 
 
 def run_case(case):
